@@ -45,6 +45,16 @@ class CallbackIface:
         t = I.to_term(args[0]) if args else VNone
         I.prover.oblige("C11,C02|process/hands-only-genuine-messages-to-the-consumer", genuine(t))
         g.setdefault("delivered_terms", []).append(t)
+        fd = g.get("last_find")
+        if fd is not None:
+            d, end, m = fd
+            P = I.prover
+            P.oblige("C02|process/delivers-exactly-the-message-the-scan-found", t == m)
+            ci = g.get("last_cleanup_input")
+            P.oblige("C02|process/consumes-exactly-the-text-of-the-delivered-message-then-removes-junk",
+                     z3.BoolVal(ci is not None and g.get("cleanup_after_find", False)) if ci is None else
+                     z3.And(z3.BoolVal(bool(g.get("cleanup_after_find", False))), ci == z3.SubString(d, end, z3.Length(d) - end)))
+            g["last_find"] = None
         return None
 
 
@@ -117,6 +127,8 @@ def _apply_cleanup(I, f, args, kwargs):
     new = I.fresh("data_c", StrS)
     I.prover.assume(z3.And(suffix_of(new, old), z3.Length(new) <= z3.Length(old)))
     set_data(b, new)
+    I.ghost["last_cleanup_input"] = old
+    I.ghost["cleanup_after_find"] = I.ghost.get("last_find") is not None
     return None
 
 
@@ -137,6 +149,8 @@ def _apply_find(I, f, args, kwargs):
         end = I.fresh("end", z3.IntSort())
         I.prover.assume(z3.And(end >= 1, end <= z3.Length(d), is_msg(z3.SubString(d, 0, end))))
         m = Sym(VRef(z3.IntVal(MSG_RID), msg_of(z3.SubString(d, 0, end))))
+        I.ghost["last_find"] = (d, end, m.term)
+        I.ghost["cleanup_after_find"] = False
         return (m, Sym(VInt(end)))
     return (None, None)
 
@@ -362,4 +376,65 @@ def task_find_complete():
         run.oblige("C02|_find_message_in_buffer/end-offset-is-not-beyond-the-first-message", z3.Implies(is_int(end), get_i(end) <= z3.Length(body)))
         run.oblige("C02|_find_message_in_buffer/a-complete-message-at-the-front-is-found-at-once",
                    z3.And(is_int(end), get_i(end) == z3.Length(body), m == VRef(z3.IntVal(MSG_RID), msg_of(body))))
+    return task
+
+
+# ---- C02: exactness of junk removal on a stream of messages ---------------------------------------------------
+def _tags_inv_exact(ctx):
+    g = ctx.ghost
+    out = _tags_inv(ctx)
+    start = ctx.interp.to_term(ctx.env.vars.get("start"))
+    G, t, tags = g["gap_len"], g["opener_tag"], g["tags_list"]
+    j = z3.Int("j")
+    seen = z3.Exists([j], z3.And(j >= 0, j < ctx.i, z3.Select(tags.elt, j) == VStr(t)), patterns=[z3.Select(tags.elt, j)])
+    out.append(("nothing-before-the-first-known-opener-is-selected", z3.Or(is_none(start), z3.And(is_int(start), get_i(start) >= G))))
+    out.append(("once-its-tag-was-visited-the-first-opener-is-selected", z3.Implies(seen, start == VInt(G))))
+    return out
+
+
+_TAGS_LOOP_EXACT = LoopContract(_tags_inv_exact, None, props="C02", label="known-tags(exact)", allowed=lambda w: False)
+
+
+def _sel_exact(I, ordinal, it):
+    fn = I.frames[-1][0].qualname if I.frames else ""
+    if fn == "Buffer._cleanup_buffer" and it is I.ghost.get("tags_list"):
+        return _TAGS_LOOP_EXACT
+    return None
+
+
+CLEANUP_EXACT = Contract(FILE, "Buffer._cleanup_buffer", loop_selector=_sel_exact)
+
+
+def task_cleanup_exact():
+    """data == gap ++ rest, rest begins with '<' + a known tag, and no known-tag opener begins inside
+    the gap (the stream grammar's gap condition): junk removal leaves exactly `rest`.  With an empty
+    gap: a buffer that begins with a message is left untouched."""
+    def task(I, run):
+        b, data0 = make_buffer(I, tags="any")
+        tags = b.fields["allowed_tags"]
+        gap, rest, t = I.fresh("gap", StrS), I.fresh("rest", StrS), I.fresh("opener_tag", StrS)
+        j = z3.Int("j")
+        run.assume(data0 == z3.Concat(gap, rest))
+        run.assume(z3.PrefixOf(z3.Concat(z3.StringVal("<"), t), rest))
+        run.assume(z3.Exists([j], z3.And(j >= 0, j < tags.length, z3.Select(tags.elt, j) == VStr(t)), patterns=[z3.Select(tags.elt, j)]))
+        G = z3.Length(gap)
+        # gap condition of the grammar: the first occurrence of any known opener is not inside the gap
+        pos = lambda tagterm: z3.IndexOf(data0, z3.Concat(z3.StringVal("<"), get_s(tagterm)), z3.IntVal(0))
+        run.assume(forall(j, implies(z3.And(j >= 0, j < tags.length), z3.Or(pos(z3.Select(tags.elt, j)) < 0, pos(z3.Select(tags.elt, j)) >= G)),
+                          patterns=[z3.Select(tags.elt, j)]))
+        run.assume(z3.IndexOf(data0, z3.Concat(z3.StringVal("<"), t), z3.IntVal(0)) == G)
+        I.ghost.update(buffer=b, data0=data0, tags_list=tags, gap_len=G, opener_tag=t)
+        I.contracts[CLEANUP_EXACT.key] = CLEANUP_EXACT
+        run.explorer.witness = buf_witness(I, data0, None)
+        f = I.world.functions[(FILE, "Buffer._cleanup_buffer")]
+        I.root_func = f
+        try:
+            I.call(IBound(f, b), [], {})
+        except IRaise as e:
+            run.fail("C02|_cleanup_buffer/raises-nothing", "raised %s" % e)
+            return
+        d1 = cur_data(I, b)
+        run.oblige("C02|_cleanup_buffer/drops-exactly-the-junk-before-the-first-message", d1 == z3.SubString(data0, G, z3.Length(data0) - G))
+        run.oblige("C02|_cleanup_buffer/keeps-the-message-and-everything-after-it", z3.Implies(d1 == z3.SubString(data0, G, z3.Length(data0) - G), d1 == rest))
+        run.canary("C02|canary[cleanup-exact]/always-empties", z3.Length(d1) == 0)
     return task
